@@ -7,6 +7,7 @@
          check and every behaviour-preserving twin must stay silent, on scratch copies of the *current* /repo tree.
          An alarming twin => the checker is wrong => UNDECIDED.  Missed mutants / stale snippets are recorded.
  T.seed  the kept independent seeded changes (/verif/seeded/*) that this property's check is recorded to catch.
+ T.twin  the kept independent behaviour-preserving refactorings (/verif/twins/*): the check must be silent on all.
 """
 import os
 import sys
@@ -84,7 +85,22 @@ def seeded_matrix(ctx, repo):
         ctx.holds('T.seed', 'seeded', '%d independently seeded changes still reported' % len(res), nontrivial=False)
 
 
+def twins_matrix(ctx, repo):
+    """independently written behaviour-preserving refactorings (/verif/twins/*): this check must stay silent on each"""
+    _import_selftest()
+    import twins as TW
+    res = TW.run_all(prop=ctx.prop)
+    bad = [(n, m) for n, g, m in res if not g]
+    ctx.extra['independent_twins'] = {'refactorings': len(res), 'silent': sum(1 for _, g, _ in res if g), 'not_silent': [n for n, _ in bad]}
+    if bad:
+        ctx.undecided('T.twin', 'twins', 'behaviour-preserving refactorings on which this check is not silent: %s' % bad)
+    elif res:
+        ctx.holds('T.twin', 'twins', '%d independently written behaviour-preserving refactorings leave this check silent' % len(res),
+                  nontrivial=False)
+
+
 def run(ctx, repo):
     ctx.run('T.nf', nf_crosscheck)
     ctx.run('T.self', selftest_matrix, repo)
     ctx.run('T.seed', seeded_matrix, repo)
+    ctx.run('T.twin', twins_matrix, repo)
